@@ -396,9 +396,24 @@ impl Real {
                     },
                     ["hread", id, n] => match self.handles.get_mut(&id.parse().unwrap()) {
                         Some(s) => {
+                            // the whole request is offered to `read` as one slice (read_to_end would probe with 32
+                            // bytes first: a reader that treats large requests specially would never see one)
                             let n: usize = n.parse().unwrap();
-                            let mut v = Vec::new();
-                            res(s.take(n as u64).read_to_end(&mut v).map(|_| format!("ok {}", hex(&v))))
+                            let mut v = vec![0u8; n.min(1 << 22)];
+                            let mut got = 0usize;
+                            let r = loop {
+                                if got == v.len() {
+                                    break Ok(());
+                                }
+                                match s.read(&mut v[got..]) {
+                                    Ok(0) => break Ok(()),
+                                    Ok(k) => got += k,
+                                    Err(e) if e.kind() == std::io::ErrorKind::Interrupted => continue,
+                                    Err(e) => break Err(e),
+                                }
+                            };
+                            v.truncate(got);
+                            res(r.map(|_| format!("ok {}", hex(&v))))
                         }
                         None => "err nohandle".into(),
                     },
